@@ -270,4 +270,197 @@ theorem cub_roundtrip_ctor (fuel : Nat) (g o : F) (h : MOps.le g (MOps.ofInt 1 :
 
 end generic
 
+/-! ## Part 1 (b): over the real numbers -/
+
+section real
+open DDS.GenMapping DDS.RealMap
+
+theorem log_roundtrip_real (fuel : Nat) (γ o : ℝ) (h : 1 < γ) :
+    FromProto fuel (some (LogarithmicMapping.ToProto (toGenLog ⟨.log, γ, o⟩))) =
+      .ok (IndexMapping.LogarithmicMapping (toGenLog ⟨.log, γ, o⟩), GoErr.nil) := by
+  rw [FromProto_none fuel _ rfl]
+  show Res.ok (IndexMapping.LogarithmicMapping (NewLogarithmicMappingWithGamma γ o).1,
+    (NewLogarithmicMappingWithGamma γ o).2) = _
+  rw [newLog_withGamma γ o h]
+
+theorem lin_roundtrip_real (fuel : Nat) (γ o : ℝ) (h : 1 < γ) :
+    FromProto fuel (some (LinearlyInterpolatedMapping.ToProto (toGenLinear ⟨.linear, γ, o⟩))) =
+      .ok (IndexMapping.LinearlyInterpolatedMapping (toGenLinear ⟨.linear, γ, o⟩), GoErr.nil) := by
+  rw [FromProto_linear fuel _ rfl]
+  show Res.ok (IndexMapping.LinearlyInterpolatedMapping (NewLinearlyInterpolatedMappingWithGamma γ o).1,
+    (NewLinearlyInterpolatedMappingWithGamma γ o).2) = _
+  rw [newLinear_withGamma γ o h]
+
+theorem cub_roundtrip_real (fuel : Nat) (γ o : ℝ) (h : 1 < γ) :
+    FromProto fuel (some (CubicallyInterpolatedMapping.ToProto (toGenCubic ⟨.cubic, γ, o⟩))) =
+      .ok (IndexMapping.CubicallyInterpolatedMapping (toGenCubic ⟨.cubic, γ, o⟩), GoErr.nil) := by
+  rw [FromProto_cubic fuel _ rfl]
+  show Res.ok (IndexMapping.CubicallyInterpolatedMapping (NewCubicallyInterpolatedMappingWithGamma γ o).1,
+    (NewCubicallyInterpolatedMappingWithGamma γ o).2) = _
+  rw [newCubic_withGamma γ o h]
+
+/-- over `ℝ` the refusal is exactly `γ ≤ 1`, for the three supported tags -/
+theorem FromProto_real_err (fuel : Nat) (pm : GoPb.IndexMapping ℝ)
+    (ht : pm.Interpolation = GoPb.IndexMapping_NONE ∨ pm.Interpolation = GoPb.IndexMapping_LINEAR ∨
+      pm.Interpolation = GoPb.IndexMapping_CUBIC)
+    (h : pm.Gamma ≤ 1) : ∃ r, FromProto fuel (some pm) = .ok (r, errGamma) :=
+  FromProto_gamma_le_one fuel pm ht (by rw [gammaGuard]; exact decide_eq_true h)
+
+/-- … and an accepted message yields a mapping with the message's parameters -/
+theorem FromProto_real_ok (fuel : Nat) (γ o : ℝ) (h : 1 < γ) :
+    FromProto fuel (some { Gamma := γ, IndexOffset := o, Interpolation := GoPb.IndexMapping_NONE }) =
+      .ok (IndexMapping.LogarithmicMapping (toGenLog ⟨.log, γ, o⟩), GoErr.nil) ∧
+    FromProto fuel (some { Gamma := γ, IndexOffset := o, Interpolation := GoPb.IndexMapping_LINEAR }) =
+      .ok (IndexMapping.LinearlyInterpolatedMapping (toGenLinear ⟨.linear, γ, o⟩), GoErr.nil) ∧
+    FromProto fuel (some { Gamma := γ, IndexOffset := o, Interpolation := GoPb.IndexMapping_CUBIC }) =
+      .ok (IndexMapping.CubicallyInterpolatedMapping (toGenCubic ⟨.cubic, γ, o⟩), GoErr.nil) :=
+  ⟨log_roundtrip_real fuel γ o h, lin_roundtrip_real fuel γ o h, cub_roundtrip_real fuel γ o h⟩
+
+example (fuel : Nat) (o : ℝ) :
+    FromProto fuel (some (CubicallyInterpolatedMapping.ToProto (toGenCubic ⟨.cubic, 2, o⟩))) =
+      .ok (IndexMapping.CubicallyInterpolatedMapping (toGenCubic ⟨.cubic, 2, o⟩), GoErr.nil) :=
+  cub_roundtrip_real fuel 2 o (by norm_num)
+
+example (fuel : Nat) (o : ℝ) :
+    ∃ r, FromProto fuel (some { Gamma := (1 : ℝ), IndexOffset := o, Interpolation := GoPb.IndexMapping_LINEAR }) =
+      .ok (r, errGamma) :=
+  FromProto_real_err fuel _ (Or.inr (Or.inl rfl)) (le_refl (1 : ℝ))
+
+end real
+
+/-! ## Part 1 (c): over the exact float model, for every instance of the operations -/
+
+/-- the identity of a generated mapping (the kind is the type) -/
+def idLog (m : LogarithmicMapping F64) : MapId := { kind := .log, gamma := m.gamma, indexOffset := m.indexOffset }
+def idLin (m : LinearlyInterpolatedMapping F64) : MapId :=
+  { kind := .linear, gamma := m.gamma, indexOffset := m.indexOffset }
+def idCub (m : CubicallyInterpolatedMapping F64) : MapId :=
+  { kind := .cubic, gamma := m.gamma, indexOffset := m.indexOffset }
+
+/-- the identity of a value of the interface (`none` for the nil interface value) -/
+def idOf : IndexMapping F64 → Option MapId
+  | .nil => none
+  | .LogarithmicMapping v => some (idLog v)
+  | .LinearlyInterpolatedMapping v => some (idLin v)
+  | .CubicallyInterpolatedMapping v => some (idCub v)
+
+/-- a Go `IndexMapping` message as a message of the model (floats as bit patterns, the enum as its number) -/
+def pbOfGo (m : GoPb.IndexMapping F64) : Proto.PbMapping :=
+  { gamma := Proto.f64bits m.Gamma, indexOffset := Proto.f64bits m.IndexOffset,
+    interpolation := m.Interpolation.toNat }
+
+/-- the Go error value of each refusal of the model's `mappingFromProto` -/
+def errOf : Proto.FromErr → GoErr
+  | .nilMapping => errNilMapping
+  | .badInterpolation => errInterpolation
+  | .badGamma => errGamma
+
+theorem errOf_ne_nil (x : Proto.FromErr) : errOf x ≠ GoErr.nil := by cases x <;> decide
+
+section f64
+variable [MOps F64]
+
+/-- the only thing asked of the instance: its guard `x <= 1` is the model's -/
+def LeOne : Prop := ∀ x : F64, MOps.le x (MOps.ofInt 1 : F64) = F64.le x (.fin 1)
+
+theorem log_toProto_model (m : LogarithmicMapping F64) :
+    pbOfGo (LogarithmicMapping.ToProto m) = Proto.mappingToProto (idLog m) := rfl
+theorem lin_toProto_model (m : LinearlyInterpolatedMapping F64) :
+    pbOfGo (LinearlyInterpolatedMapping.ToProto m) = Proto.mappingToProto (idLin m) := rfl
+theorem cub_toProto_model (m : CubicallyInterpolatedMapping F64) :
+    pbOfGo (CubicallyInterpolatedMapping.ToProto m) = Proto.mappingToProto (idCub m) := rfl
+
+omit [MOps F64] in
+/-- the model's `mappingFromProto` on a projected Go message with a supported tag -/
+theorem model_supported (pm : GoPb.IndexMapping F64) (k : MKind)
+    (hk : pm.Interpolation.toNat = Proto.interpolationOf k)
+    (hg : F64.ofBits (F64.toBits pm.Gamma) = pm.Gamma)
+    (ho : F64.ofBits (F64.toBits pm.IndexOffset) = pm.IndexOffset) :
+    Proto.mappingFromProto (some (pbOfGo pm)) =
+      if F64.le pm.Gamma (.fin 1) then .error .badGamma
+      else .ok { kind := k, gamma := pm.Gamma, indexOffset := pm.IndexOffset } := by
+  unfold Proto.mappingFromProto pbOfGo Proto.f64bits
+  simp only [hk, MapId.kind_of_interpolation, MapId.ofNat_toBits, hg, ho]
+
+omit [MOps F64] in
+theorem model_unsupported (pm : GoPb.IndexMapping F64)
+    (h0 : pm.Interpolation ≠ GoPb.IndexMapping_NONE) (h1 : pm.Interpolation ≠ GoPb.IndexMapping_LINEAR)
+    (h3 : pm.Interpolation ≠ GoPb.IndexMapping_CUBIC) :
+    Proto.mappingFromProto (some (pbOfGo pm)) = .error .badInterpolation := by
+  have t0 : pm.Interpolation.toNat ≠ 0 := fun h => h0 (BitVec.eq_of_toNat_eq h)
+  have t1 : pm.Interpolation.toNat ≠ 1 := fun h => h1 (BitVec.eq_of_toNat_eq h)
+  have t3 : pm.Interpolation.toNat ≠ 3 := fun h => h3 (BitVec.eq_of_toNat_eq h)
+  unfold Proto.mappingFromProto pbOfGo
+  simp only [if_neg t0, if_neg t1, if_neg t3]
+
+/-- **the generated `FromProto` and the model's `mappingFromProto` take the same branch** on every message whose
+    floats survive `toBits / ofBits`: the same refusal, or no error and the identity `(kind, gamma, indexOffset)`
+    of the resulting mapping is the model's -/
+theorem FromProto_model (hle : LeOne) (fuel : Nat) (pm? : Option (GoPb.IndexMapping F64))
+    (hb : ∀ pm, pm? = some pm → F64.ofBits (F64.toBits pm.Gamma) = pm.Gamma ∧
+      F64.ofBits (F64.toBits pm.IndexOffset) = pm.IndexOffset) :
+    ∃ r e, FromProto fuel pm? = .ok (r, e) ∧
+      (match Proto.mappingFromProto (pm?.map pbOfGo) with
+        | .error x => e = errOf x
+        | .ok id => e = GoErr.nil ∧ idOf r = some id) := by
+  cases pm? with
+  | none => exact ⟨_, _, FromProto_nil fuel, rfl⟩
+  | some pm =>
+    obtain ⟨hg, ho⟩ := hb pm rfl
+    rw [Option.map_some]
+    by_cases h0 : pm.Interpolation = GoPb.IndexMapping_NONE
+    · refine ⟨_, _, FromProto_none fuel pm h0, ?_⟩
+      rw [model_supported pm .log (by rw [h0]; rfl) hg ho]
+      cases hc : F64.le pm.Gamma (.fin 1)
+      · obtain ⟨he, hg', ho'⟩ := ctorLog_ok pm.Gamma pm.IndexOffset (by rw [hle, hc])
+        simp only [Bool.false_eq_true, if_false]
+        exact ⟨he, by simp only [idOf, idLog, hg', ho']⟩
+      · simp only [if_true]
+        exact ctorLog_err _ _ (by rw [hle, hc])
+    by_cases h1 : pm.Interpolation = GoPb.IndexMapping_LINEAR
+    · refine ⟨_, _, FromProto_linear fuel pm h1, ?_⟩
+      rw [model_supported pm .linear (by rw [h1]; rfl) hg ho]
+      cases hc : F64.le pm.Gamma (.fin 1)
+      · obtain ⟨he, hg', ho'⟩ := ctorLin_ok pm.Gamma pm.IndexOffset (by rw [hle, hc])
+        simp only [Bool.false_eq_true, if_false]
+        exact ⟨he, by simp only [idOf, idLin, hg', ho']⟩
+      · simp only [if_true]
+        exact ctorLin_err _ _ (by rw [hle, hc])
+    by_cases h3 : pm.Interpolation = GoPb.IndexMapping_CUBIC
+    · refine ⟨_, _, FromProto_cubic fuel pm h3, ?_⟩
+      rw [model_supported pm .cubic (by rw [h3]; rfl) hg ho]
+      cases hc : F64.le pm.Gamma (.fin 1)
+      · obtain ⟨he, hg', ho'⟩ := ctorCub_ok pm.Gamma pm.IndexOffset (by rw [hle, hc])
+        simp only [Bool.false_eq_true, if_false]
+        exact ⟨he, by simp only [idOf, idCub, hg', ho']⟩
+      · simp only [if_true]
+        exact ctorCub_err _ _ (by rw [hle, hc])
+    · refine ⟨_, _, FromProto_unsupported fuel pm h0 h1 h3, ?_⟩
+      rw [model_unsupported pm h0 h1 h3]
+      rfl
+
+/-- the error of the generated `FromProto` is nil exactly when the model accepts the message -/
+theorem FromProto_err_nil_iff (hle : LeOne) (fuel : Nat) (pm? : Option (GoPb.IndexMapping F64))
+    (hb : ∀ pm, pm? = some pm → F64.ofBits (F64.toBits pm.Gamma) = pm.Gamma ∧
+      F64.ofBits (F64.toBits pm.IndexOffset) = pm.IndexOffset) (r : IndexMapping F64) (e : GoErr)
+    (h : FromProto fuel pm? = .ok (r, e)) :
+    e = GoErr.nil ↔ ∃ id, Proto.mappingFromProto (pm?.map pbOfGo) = .ok id := by
+  obtain ⟨r', e', h', hm⟩ := FromProto_model hle fuel pm? hb
+  rw [h] at h'
+  injection h' with h'
+  injection h' with hr he
+  subst hr; subst he
+  cases hx : Proto.mappingFromProto (pm?.map pbOfGo) with
+  | error x =>
+    rw [hx] at hm
+    simp only at hm
+    constructor
+    · intro hn; exact absurd (hm ▸ hn) (errOf_ne_nil x)
+    · rintro ⟨id, hid⟩; cases hid
+  | ok id =>
+    rw [hx] at hm
+    exact ⟨fun _ => ⟨id, rfl⟩, fun _ => hm.1⟩
+
+end f64
+
 end DDS.GenProtoSketch
